@@ -45,8 +45,9 @@ Star4 == <<Col(1), Col(2), Col(3), Col(4)>>
 Init == tb \in TablesDom /\ p = TT /\ phase = 0
 Next == phase = 0 /\ phase' = 1 /\ p' \in E2 /\ UNCHANGED tb
 \* sampling variant for `-simulate` (one random table, one random predicate per behaviour)
-SInit == tb = RandomElement(TablesDom) /\ p = TT /\ phase = 0
-SNext == phase = 0 /\ phase' = 1 /\ p' = RandomElement(E2) /\ UNCHANGED tb
+\* (TLC evaluates the initial predicate once per simulation run, so the table is drawn in the step too)
+SInit == tb = <<>> /\ p = TT /\ phase = 0
+SNext == phase = 0 /\ phase' = 1 /\ p' = RandomElement(E2) /\ tb' = RandomElement(TablesDom)
 
 QT(w) == Rows(Sel(T, w, Star), <<>>, DB)
 CS2 == <<"none", "none">>
@@ -92,5 +93,5 @@ Cases(pp) == << Sel(T, pp, Star), Sel(T, Op1("not", pp), Star), Sel(T, Op1("isnu
                 Grouped(pp),
                 \* ORDER BY through the select aliases: DISTINCT + ORDER BY <ordinal> is a recorded engine defect
                 [ordalias |-> TRUE] @@ [Sel(T, pp, Star) EXCEPT !.distinct = TRUE, !.order = << [i |-> 2, desc |-> TRUE], [i |-> 1, desc |-> FALSE] >>, !.limit = 1] >>
-Emit == PrintT("CASE " \o ToJson([tb |-> tb, qs |-> Cases(p')]))
+Emit == PrintT("CASE " \o ToJson([tb |-> tb', qs |-> Cases(p')]))
 =============================================================================
